@@ -572,7 +572,7 @@ impl Exec {
         }
     }
 
-    fn resolve_msg(&self, m: &Msg) -> (Vec<u8>, Option<(Side, usize)>) {
+    pub fn resolve_msg(&self, m: &Msg) -> (Vec<u8>, Option<(Side, usize)>) {
         match m {
             Msg::Wire(s, i) => match self.wires[s.idx()].get(*i) {
                 Some(w) => (w.bytes.clone(), Some((*s, *i))),
